@@ -8,6 +8,7 @@
 From P7 Require Import Prelude PyPrims Number Header Spec Assign AssignProofs.
 From P7 Require PackInfoGen.
 From P7 Require HeaderGenPrims FolderGen.
+From P7 Require SubstreamsGen.
 From P7gen Require ArchiveinfoRecords.
 Open Scope Z_scope.
 
@@ -256,3 +257,26 @@ Print Assumptions C06_gen_UnpackInfo_retrieve_accepts.
 Theorem C06_gen_read_crcs_is_rd_crcs : forall bs count, 0 <= count -> ArchiveinfoRecords.read_crcs bs count = rd_crcs count bs.
 Proof. exact FolderGen.gen_read_crcs_rd_crcs. Qed.
 Print Assumptions C06_gen_read_crcs_is_rd_crcs.
+
+(* ---- third wave (stage 3): SubstreamsInfo._read / retrieve / _inherit_folder_digests / default and Folder.get_unpack_size /
+   _find_out_bin_pair as translated on this run are parse_substreams / default_digests / folder_unpack_size.
+   The reader is called as the code calls it: numfolders = len(folders).  Exact equality, error classes included. ---- *)
+Theorem C06_gen_SubstreamsInfo_retrieve_is_parse_substreams : forall lim bs (gfs : list ArchiveinfoRecords.Folder),
+  wf_bytes bs = true -> parse_substreams lim (map FolderGen.folder_of gfs) bs <> Err EFuel ->
+  (do (o, r) <- ArchiveinfoRecords.SubstreamsInfo_retrieve bs (zlen gfs) gfs; Ok (SubstreamsGen.sub_of o, r))
+  = parse_substreams lim (map FolderGen.folder_of gfs) bs.
+Proof. exact SubstreamsGen.gen_SubstreamsInfo_retrieve_eq_model. Qed.
+Print Assumptions C06_gen_SubstreamsInfo_retrieve_is_parse_substreams.
+
+Theorem C06_gen_Folder_get_unpack_size_is_model : forall g : ArchiveinfoRecords.Folder,
+  ArchiveinfoRecords.Folder_get_unpack_size g = folder_unpack_size (FolderGen.folder_of g).
+Proof. exact SubstreamsGen.gen_get_unpack_size. Qed.
+Print Assumptions C06_gen_Folder_get_unpack_size_is_model.
+
+(* SubstreamsInfo.default(folders): what the reader installs for an archive without a SubStreamsInfo record (F11 repair) *)
+Theorem C06_gen_SubstreamsInfo_default_is_default_digests : forall gfs : list ArchiveinfoRecords.Folder,
+  ArchiveinfoRecords.SubstreamsInfo_default gfs
+  = let '(d, g) := default_digests (repeat 1 (length gfs)) (map FolderGen.folder_of gfs) in
+    Ok (ArchiveinfoRecords.mkSubstreamsInfo g d None (repeat 1 (length gfs))).
+Proof. exact SubstreamsGen.gen_SubstreamsInfo_default. Qed.
+Print Assumptions C06_gen_SubstreamsInfo_default_is_default_digests.
